@@ -68,11 +68,18 @@ StructActs(op) == CASE op = "RNN" -> {<<"relu">>, <<"tanh">>} [] op = "GRU" -> {
 ActTuples(op) == [1..NActs(op) -> KnownActs]
 
 \* ---------------------------------------------------------------- parameter spaces (one initial state per case)
+WidePairs == {<<1, 12>>, <<11, 2>>, <<12, 1>>, <<1, 21>>, <<2, 11>>, <<21, 1>>, <<1, 11>>, <<11, 1>>, <<1, 10>>, <<10, 1>>, <<2, 13>>, <<21, 3>>, <<3, 12>>, <<31, 2>>}
 Params ==
    UNION {
      IF "structure" \in Fams
      THEN UNION {[fam : {"structure"}, op : {op}, S : 1..MaxS, Bt : 1..MaxB, I : 1..MaxIn, Hd : 1..MaxH, acts : StructActs(op), opt : OptSets(op),
                   salt : {0, 3}, lbr : IF op = "GRU" THEN {0, 1} ELSE {0}, cboost : {FALSE}, bigc : {FALSE}, k : {0}] : op \in OpSet}
+     ELSE {},
+     \* extents of two decimal digits, in pairs whose digit strings coincide when written one after the other ((1,12) and (11,2), (1,21)
+     \* and (12,1), ...): whatever a state shape is turned into - a key, a label, a size - two different shapes stay two different shapes
+     IF "structure" \in Fams
+     THEN UNION {[fam : {"structure"}, op : {op}, S : {1, 2}, Bt : {bh[1]}, I : {1}, Hd : {bh[2]}, acts : {CHOOSE a \in StructActs(op) : a[Len(a)] = "relu"},
+                  opt : {{}, AllOpt(op)}, salt : {0}, lbr : {0}, cboost : {FALSE}, bigc : {FALSE}, k : {0}] : op \in OpSet, bh \in WidePairs}
      ELSE {},
      IF "slots" \in Fams
      THEN UNION {[fam : {"slots"}, op : {op}, S : 1..2, Bt : {2}, I : {2}, Hd : {2}, acts : ActTuples(op), opt : {AllOpt(op), AllOpt(op) \ {"P"}},
@@ -117,6 +124,7 @@ Step ==
 CaseFeat(p) ==
    CASE p.fam = "structure" -> <<p.op, "acts_" \o p.acts[1]>> \o OptFeat(p.opt) \o (IF p.lbr = 1 THEN <<"linear_before_reset">> ELSE <<>>)
                                \o (IF p.Hd = 1 THEN <<"hidden1">> ELSE <<>>) \o (IF p.Bt = 1 THEN <<"batch1">> ELSE <<>>) \o (IF p.S = 1 THEN <<"seq1">> ELSE <<>>)
+                               \o (IF p.Bt >= 10 \/ p.Hd >= 10 THEN <<"two_digit_extent">> ELSE <<>>)
      [] p.fam = "slots" -> <<p.op, "slots">> \o [i \in 1..Len(p.acts) |-> "slot" \o ToString(i) \o "_" \o p.acts[i]]
      [] p.fam = "split" -> <<p.op, "split_at_" \o ToString(p.k)>>
 
